@@ -432,4 +432,170 @@ Section Reader.
       exists wr. split; reflexivity.
   Qed.
 
+  (* ---- the state right after the header of an LZMA chunk --------------------------------------- *)
+  Lemma lzma_chunk_start c0 t0 h syms E c' h' usize bytes s1 hist :
+    no_end syms -> enc_syms c0 h syms = Ok (E, c', h') ->
+    coder_params c' lc lp pb ->
+    usize = h_pos h' - h_pos h -> 1 <= usize ->
+    chunks_ok lc lp pb (RNone c' (snd (renc_events renc_init t0 E))) h' bytes ->
+    hfix h -> hist_rel h hist -> win_ok (m_win s1) hist -> w_pending_len (m_win s1) = 0 ->
+    coder_ok c0 (w_full (m_win s1)) ->
+    rc_sim E t0 [] [] (m_rc s1) t0 ->
+    m_probs s1 = t0 -> m_coder s1 = Some c0 ->
+    m_uncompressed_size s1 = usize -> m_is_lzma_chunk s1 = true -> m_end_reached s1 = false ->
+    m_error s1 = None -> m_need_props s1 = false -> m_need_dict_reset s1 = false -> m_in s1 = bytes ++ tail ->
+    in_lzma s1 (data_from h).
+  Proof.
+    intros Hne He Hcp Hus Hu1 Hck (Hd & Ht & Hdi) Hhr Hw Hpl Hcok Hsim Hpr Hco Hsz Hlz Hend Herr Hnp Hnd Hin.
+    assert (Hdok : data_ok h) by (intros i; unfold hget; rewrite Hd; apply Hdata).
+    pose proof Hcok as (_ & _ & Hreps & _).
+    destruct (aproduce_syms syms c0 h hist dict (w_pending_dist (m_win s1)) (Z.to_nat usize) E c' h' []
+                Hne Hhr ltac:(lia) ltac:(left; lia) Hdok Hreps He ltac:(lia))
+      as (hist' & pd' & Hrun & Hhr' & Hreps' & Hb & Hdd & Htt & Hda).
+    rewrite app_nil_r in Hrun.
+    pose proof (chunks_ok_pos _ _ _ _ _ _ Hck) as Hpos'.
+    exists E, t0, [], E, c0, hist, (mkAstate c' hist' dict 0 pd'), h', bytes, usize.
+    cbn [a_coder a_hist a_pend_len].
+    split; [lia|]. split; [exact Hsz|]. split; [exact Hlz|]. split; [exact Hend|]. split; [exact Herr|].
+    split; [exact Hnp|]. split; [exact Hnd|]. split; [exact Hco|]. split; [exact Hw|].
+    split; [exact Hcok|].
+    split; [rewrite Hpl; intros X; lia|].
+    split; [reflexivity|]. split; [rewrite Hpr; exact Hsim|].
+    split; [rewrite Hpl; exact Hrun|].
+    split; [reflexivity|]. split; [exact Hhr'|].
+    split; [unfold hfix; repeat split; congruence|].
+    split; [exact Hcp|]. split; [exact Hck|]. split; [exact Hin|].
+    (* the data of the chunk *)
+    destruct Hhr as (Hl & Hb0 & _). pose proof Hhr' as (Hl' & _ & _). pose proof (zlen_nonneg hist) as Hzn.
+    rewrite (hist_rel_newest (Z.to_nat usize) h' hist' Hhr') by lia.
+    rewrite (data_from_split h usize) by lia.
+    rewrite Hda. replace (h_pos h' - Z.of_nat (Z.to_nat usize)) with (h_pos h) by lia.
+    f_equal. unfold data_from, h_at. cbn [h_data h_total h_pos]. rewrite Hda, Htt.
+    replace (h_pos h + usize) with (h_pos h') by lia. reflexivity.
+  Qed.
+
+  (* the window after the header: reset for a dictionary reset, untouched otherwise *)
+  Lemma boundary_window r h s w1 : at_boundary r h s ->
+    match r with RDict => lzwin_reset (m_win s) = Ok w1 | _ => w1 = m_win s end ->
+    exists hist, win_ok w1 hist /\ hist_rel h hist /\ w_pending_len w1 = 0 /\
+                 match r with RNone c _ => coder_ok c (w_full w1) | _ => True end.
+  Proof.
+    intros Hb Hw1. pose proof (at_boundary_reset _ _ _ Hb) as (wr & Hreset & Rr & Hszr & Hstr & Hpor & Hfur & Hplr).
+    destruct Hb as (_ & _ & _ & _ & (Hco & _) & (Hsz & Hpl & Hwin) & _).
+    destruct r as [c t| | |].
+    - subst w1. destruct Hwin as (hist & Hw & Hhr). exists hist.
+      split; [exact Hw|]. split; [exact Hhr|]. split; [exact Hpl|].
+      destruct Hco as (_ & _ & _ & _ & X). exact X.
+    - subst w1. destruct Hwin as (hist & Hw & Hhr). exists hist.
+      split; [exact Hw|]. split; [exact Hhr|]. split; [exact Hpl | exact I].
+    - subst w1. destruct Hwin as (hist & Hw & Hhr). exists hist.
+      split; [exact Hw|]. split; [exact Hhr|]. split; [exact Hpl | exact I].
+    - rewrite Hreset in Hw1. apply Ok_inj in Hw1. subst w1. destruct Hwin as (Hbp & Hb0).
+      exists []. split; [split; [exact Rr|]; repeat split; lia|].
+      split; [|split; [exact Hplr | exact I]].
+      unfold hist_rel. change (zlen (@nil Z)) with 0. split; [lia|]. split; [exact Hb0|]. intros d Hd. lia.
+  Qed.
+
+  Lemma header_ok r h bytes : chunks_ok lc lp pb r h bytes ->
+    forall s, at_boundary r h s -> m_in s = bytes ++ tail ->
+    exists s1, lzma2_chunk_header s = Ok s1 /\
+      ((m_end_reached s1 = true /\ m_error s1 = None /\ m_in s1 = tail /\ data_from h = []) \/
+       (m_end_reached s1 = false /\ (in_unc s1 (data_from h) \/ in_lzma s1 (data_from h)))).
+  Proof.
+    induction 1 as [r h He | r h bytes _ IH | r h n bytes Hn Hle Hck _ | r h syms E c' h' usize csize bytes
+                    Hne Hs Hp Hbits Hu Hur Hc Hcr Hck _]; intros s Hb Hin.
+    - (* end of stream *)
+      unfold lzma2_chunk_header. rewrite Hin. cbn [app read_u8 obind]. change (0 =? 0) with true. cbv iota.
+      eexists. split; [reflexivity|]. left. msimpl.
+      destruct Hb as (_ & _ & Herr & _).
+      split; [reflexivity|]. split; [exact Herr|]. split; [reflexivity | apply data_from_end; exact He].
+    - (* independent restart: nothing in the stream *)
+      apply IH; [|exact Hin].
+      destruct Hb as (H1 & H2 & H3 & H4 & (_ & Hnp & Hnd) & (Hsz & Hpl & Hwin) & Hfx).
+      split; [exact H1|]. split; [exact H2|]. split; [exact H3|]. split; [exact H4|].
+      split; [split; [exact I|]; split; intros _; reflexivity|].
+      split; [|exact Hfx].
+      split; [exact Hsz|]. split; [exact Hpl|]. cbn [h_rebase h_base h_pos]. split; [reflexivity|].
+      destruct r as [c t| | |]; try (destruct Hwin as (hist & _ & (Hl & Hb0 & _)); pose proof (zlen_nonneg hist); lia).
+      lia.
+    - (* stored chunk *)
+      rewrite <- !app_assoc in Hin.
+      destruct (header_unc r h s n _ Hb Hn Hin) as (w1 & Hhdr & Hw1).
+      destruct (boundary_window r h s w1 Hb Hw1) as (hist & Hwok & Hhr & Hpl1 & _).
+      destruct Hb as (_ & Hend & Herr & Hfin & (Hco & Hnp & Hnd) & _ & Hfx).
+      eexists. split; [exact Hhdr|]. right. msimpl. split; [reflexivity|]. left.
+      pose proof Hfx as (Hd & Ht & _).
+      exists (after_unc r), h, n, bytes, hist. msimpl.
+      split; [lia|]. split; [lia|]. split; [reflexivity|]. split; [reflexivity|]. split; [reflexivity|].
+      split; [exact Herr|]. split; [exact Hfin|].
+      split; [destruct r; cbn [after_unc]; auto|].
+      split.
+      { unfold sync_coder. destruct r as [c t| | |]; cbn [after_unc has_props] in *.
+        - destruct Hco as (Hc1 & _ & Hc3 & _). split; [exists c; split; assumption|].
+          split; [exact Hnp | intros X; discriminate X].
+        - split; [exact Hco|]. split; [exact Hnp | intros X; discriminate X].
+        - split; [exact I|]. split; [intros _; reflexivity | intros X; discriminate X].
+        - split; [exact I|]. split; [intros _; reflexivity | intros X; discriminate X]. }
+      split; [exact Hwok|]. split; [exact Hpl1|]. split; [exact Hhr|]. split; [exact Hfx|].
+      split; [exact Hck|]. split; [rewrite <- Hd; reflexivity | reflexivity].
+    - (* LZMA chunk *)
+      set (c0 := start_coder lc lp pb r) in *. set (t0 := start_probs r) in *.
+      pose proof Hb as (_ & Hend & Herr & _ & (Hco & _) & _ & Hfx).
+      pose proof Hfx as (Hd & Ht & Hdi).
+      assert (Ht0 : probs_ok t0).
+      { unfold t0. destruct r as [c t| | |]; cbn [start_probs]; try exact probs_ok_empty.
+        destruct Hco as (_ & _ & _ & X & _). exact X. }
+      assert (Hok : forallb RangeEncProofs.ev_ok E = true).
+      { rewrite forallb_ev_ok_same. eapply enc_syms_events_ok; [|exact Hs]. lia. }
+      destruct (rc_sim_init E t0 [] Ht0 Hok Hbits) as (d0 & Hinit & Hsim).
+      rewrite app_nil_r in Hinit. fold (chunk_body t0 E) in Hinit.
+      rewrite <- !app_assoc in Hin. rewrite Hc in Hin, Hcr.
+      destruct (header_lzma r h s usize (chunk_body t0 E) bytes d0 Hb Hur Hcr Hinit Hin) as (w1 & Hhdr & Hw1).
+      destruct (boundary_window r h s w1 Hb Hw1) as (hist & Hwok & Hhr & Hpl1 & Hcok).
+      eexists. split; [exact Hhdr|]. right. msimpl. split; [reflexivity|]. right.
+      eapply (lzma_chunk_start c0 t0 h syms E c' h' usize bytes _ hist Hne Hs Hp Hu ltac:(lia) Hck Hfx Hhr);
+        msimpl; try reflexivity; try assumption.
+      unfold c0. destruct r as [c t| | |]; cbn [start_coder]; try (apply coder_ok_new; assumption). exact Hcok.
+  Qed.
+
+  (* ---- one iteration of the read loop ---------------------------------------------------------- *)
+  Lemma iter_step s rem len : Inv s rem -> 0 < len ->
+    exists out s', lzma2_iter s len = Ok (out, s') /\
+      ((rem = [] /\ out = [] /\ Ended tail s') \/
+       (out <> [] /\ zlen out <= len /\ exists rem', rem = out ++ rem' /\ Inv s' rem')).
+  Proof.
+    intros [(r & h & bytes & Hck & Hb & Hin & Hrem) | [H | H]] Hlen; rewrite lzma2_iter_eq.
+    - pose proof Hb as (Hus & _). rewrite Hus. change (0 =? 0) with true. cbv iota.
+      destruct (header_ok r h bytes Hck s Hb Hin) as (s1 & Hhdr & [(He1 & Her1 & Hin1 & Hd1) | (He1 & Hbody)]);
+        rewrite Hhdr; cbn [obind]; rewrite He1.
+      + exists [], s1. split; [reflexivity|]. left. split; [congruence|]. split; [reflexivity|].
+        split; [exact He1|]. split; assumption.
+      + subst rem. destruct Hbody as [Hbody | Hbody].
+        * destruct (body_unc s1 _ len Hbody Hlen) as (out & s' & H1 & H2 & H3 & H4).
+          exists out, s'. split; [exact H1|]. right. auto.
+        * destruct (body_lzma s1 _ len Hbody Hlen) as (out & s' & H1 & H2 & H3 & H4).
+          exists out, s'. split; [exact H1|]. right. auto.
+    - pose proof H as (r & h & u & bytes & hist & Hu & _ & Hus & _ & Hend & _).
+      rewrite Hus. destruct (Z.eqb_spec u 0) as [X|_]; [lia|]. cbn [obind]. rewrite Hend.
+      destruct (body_unc s rem len H Hlen) as (out & s' & H1 & H2 & H3 & H4).
+      exists out, s'. split; [exact H1|]. right. auto.
+    - pose proof H as (E & t0 & done & rest & c & hist & se & h' & bytes & u & Hu & Hus & _ & Hend & _).
+      rewrite Hus. destruct (Z.eqb_spec u 0) as [X|_]; [lia|]. cbn [obind]. rewrite Hend.
+      destruct (body_lzma s rem len H Hlen) as (out & s' & H1 & H2 & H3 & H4).
+      exists out, s'. split; [exact H1|]. right. auto.
+  Qed.
+
+  (* ---- every read history of a well-formed chunk sequence -------------------------------------- *)
+  Theorem read_chunks r h bytes s sizes fuel :
+    chunks_ok lc lp pb r h bytes -> at_boundary r h s -> m_in s = bytes ++ tail ->
+    Forall (fun z => 0 < z) sizes -> (length (data_from h) + 2 <= fuel)%nat ->
+    exists s_end, lzma2_read_all fuel s sizes sizes [] = Ok (data_from h, 0, s_end) /\ m_in s_end = tail.
+  Proof.
+    intros Hck Hb Hin Hsz Hf.
+    assert (HI : Inv s (data_from h)) by (left; exists r, h, bytes; auto).
+    destruct (read_all_ok Inv tail Inv_live iter_step fuel s (data_from h) sizes sizes [] HI Hsz Hsz Hf)
+      as (s_end & Hr & (_ & _ & Ht)).
+    exists s_end. split; [exact Hr | exact Ht].
+  Qed.
+
 End Reader.
